@@ -59,8 +59,17 @@ def classify(inv):
                 causes.append("failed_pause")
         for b, e in c.accepted("abort", "stop", "halt"):
             causes.append(b.d["do"])
-        if not resumable and c.accepted("pause", "trip"):
-            causes.append("failed_pause")
+        if not resumable:
+            # a pause / suspension request that reached the engine while it was running the non-resumable section
+            # (not one that arrived after the plan's last message or when the engine was idle again)
+            cleared = next(m.seq for m in c.of("msg") if m.d["cmd"] == "clear_checkpoint") if any(m.d["cmd"] == "clear_checkpoint" for m in c.of("msg")) else -1
+            for b, e in c.accepted("pause", "trip"):
+                landed = b.d["state"] == "running" and b.seq > cleared and any(m.seq > e.seq for m in inv.of("msg"))
+                if b.d["do"] == "trip":
+                    landed = landed and any(x.kind == "sus_request" and x.d["state"] == "running" and b.seq < x.seq <= e.seq for x in c.events)
+                if landed:
+                    causes.append("failed_pause")
+                    inv.failed_pause_seq = min(getattr(inv, "failed_pause_seq", e.seq), e.seq)
         if c.api in ("abort", "stop", "halt") and c.outcome in ("return", "raise") and c.exc in (None, "RunEngineInterrupted"):
             causes.append(c.api)
     for e in inv.events:
@@ -124,6 +133,13 @@ def check(res):
                 out.append(V("interruption-not-reported", f"{kind} accepted but no call raised RunEngineInterrupted: {[ (c.api, c.outcome, c.exc) for c in inv.calls]}", kind=kind))
             want = EXPECTED[kind]
             reason_want = None
+            if kind == "failed_pause" and getattr(inv, "failed_pause_seq", None) is not None and str(last.state) == "idle":
+                # whoever closes them (the engine, or the plan's own close_run on its way out): the runs that were
+                # open when the interruption struck the non-resumable section end as aborted
+                for e in inv.of("doc"):
+                    if e.d["name"] == "stop" and e.seq > inv.failed_pause_seq and e.d["doc"].get("exit_status") != "abort":
+                        out.append(V("wrong-exit-status", f"run closed with exit_status={e.d['doc'].get('exit_status')!r} after a pause/suspension in a non-resumable section, expected 'abort'", got=e.d["doc"].get("exit_status"), want="abort", causes=causes))
+                        break
         elif failure is not None:
             want = "fail"
             reason_want = failure.end.d["text"]
